@@ -20,7 +20,10 @@ META = {
                   "which is farther than any index left out, query_radius returns exactly the indices within the radius. "
                   "Leaf test, split predicate, degenerate-split fallback, axis cycling, box update, box excess, both prune "
                   "predicates, the eviction test, the result order and the PriorityItem comparator / PriorityQueue plumbing are regenerated from the source on every run; the "
-                  "loops are tied by kernel-evaluated correspondence batches (whole node array, query answers).",
+                  "loops are tied by kernel-evaluated correspondence batches (whole node array, query answers). LIMIT: arithmetic is "
+                  "exact (integers, squared distances); the implementation orders by binary64 sqrt distances, so points whose true "
+                  "distances differ by less than rounding resolution are ties for it (tested, not proved: a rounding class with "
+                  "coordinates around 2^20..2^40 is checked by an exact-integer oracle up to 2^-46 relative).",
     "level_note": "Trusted: Coq kernel + vm_compute; the kdtree/aabb translator; the correspondence harness (generators, "
                   "driver canonicalisation, doubling of coordinates so medians are integral, comparison of squared instead "
                   "of square-rooted distances on small integers); the candidate heap is modelled concretely (heapq sift algorithm copied "
@@ -151,6 +154,44 @@ def gen_ambient(rng):
     return qs
 
 
+def gen_float_case(rng):
+    """Rounding class (not sent to Coq): huge, near-equal integer coordinates, so that binary64 distances of points whose
+    true distances differ are equal or nearly so. Checked by the exact-integer oracle with a rounding tolerance."""
+    d = rng.choice([1, 2, 2, 3])
+    X = 2 ** rng.choice([20, 26, 30, 40])
+    big = [True] + [rng.random() < 0.4 for _ in range(d - 1)]
+    n = rng.randint(2, 14)
+    pts = [[(X if big[a] else 0) + rng.randint(-3, 3) for a in range(d)] for _ in range(n)]
+    if rng.random() < 0.3:
+        pts += [list(rng.choice(pts)) for _ in range(rng.randint(1, 3))]
+    n = len(pts)
+
+    def qp():
+        r = rng.random()
+        if r < 0.4:
+            return [0] * d                                              # far away: all distances ~ X, differences below 1 ulp
+        if r < 0.6:
+            return [-2 * X] * d
+        if r < 0.8:
+            return [2 * c + rng.randint(-3, 3) for c in rng.choice(pts)]   # next to the cluster: exact arithmetic
+        return [2 * (X if big[a] else 0) + rng.randint(-9, 9) for a in range(d)]
+    knn = [[qp(), max(1, rng.choice([1, 2, n // 2, n - 1, n, n + 1]))] for _ in range(3)]
+    rad = []
+    for _ in range(2):
+        Q = qp()
+        rad.append([Q, max(0, d2(rng.choice(pts), Q) + rng.choice([0, 0, -1, 1, rng.randint(-40, 40)]))])
+    return {"dim": d, "pts": pts, "mls": rng.choice([1, 1, 2, 3]), "strategy": rng.choice(["balanced", "fast", "random"]),
+            "seed": rng.randint(0, 2 ** 31 - 1), "dtype": "float", "knn": knn, "rad": rad, "style": "bigfloat", "float_only": True}
+
+
+TOL_BITS = 46      # two squared distances closer than 2^-46 (relative) are not distinguished by the tolerant oracle
+
+
+def close_le(a, b):
+    """a <= b (1 + 2^-TOL_BITS), in exact integer arithmetic."""
+    return (a << TOL_BITS) <= b * ((1 << TOL_BITS) + 1)
+
+
 def exhaustive_cases():
     """Support only (thorough tier): every point sequence of a small finite space, with fixed query sets."""
     import itertools
@@ -211,14 +252,31 @@ def oracle(case, obs):
         if len(set(ans)) != len(ans) or any(not 0 <= i < n for i in ans):
             return ("knn-indices", "query(%s/2, k=%d) returned %s: repeated or invalid index" % (Q, k, ans))
         ds = [d2(pts[i], Q) for i in ans]
+        brute = sorted(d2(p, Q) for p in pts)[:k]
+        if case.get("float_only"):
+            # exact integers, but two distances within binary64 rounding of each other may come in either order
+            if any(not close_le(ds[i], ds[i + 1]) for i in range(len(ds) - 1)):
+                return ("knn-order", "query(%s/2, k=%d) distances decrease by more than rounding: %s" % (Q, k, ds))
+            if any(not (close_le(a, b) and close_le(b, a)) for a, b in zip(sorted(ds), brute)):
+                return ("knn-not-nearest", "query(%s/2, k=%d) squared distances x4 %s differ from the k smallest %s by more than rounding"
+                        % (Q, k, ds, brute))
+            continue
         if any(ds[i] > ds[i + 1] for i in range(len(ds) - 1)):
             return ("knn-order", "query(%s/2, k=%d) distances are not non-decreasing: %s" % (Q, k, ds))
-        brute = sorted(d2(p, Q) for p in pts)[:k]
         if ds != brute:
             return ("knn-not-nearest", "query(%s/2, k=%d) squared distances x4 %s, the k smallest are %s" % (Q, k, ds, brute))
     for (Q, m), ans in zip(case["rad"], obs["rad"]):
         if ans and ans[0] == "error":
             return ("radius-error", "query_radius(%s/2, sqrt(%d)/2) failed: %s" % (Q, m, ans[1]))
+        if case.get("float_only"):
+            if len(set(ans)) != len(ans) or any(not 0 <= i < n for i in ans):
+                return ("radius-set", "query_radius(%s/2, sqrt(%d)/2) returned %s: repeated or invalid index" % (Q, m, ans))
+            inside = [i for i in range(n) if not close_le(m, d2(pts[i], Q))]          # clearly inside: d2 (1+eps) < m
+            outside = [i for i in range(n) if not close_le(d2(pts[i], Q), m)]         # clearly outside
+            if not set(inside) <= set(ans) or set(ans) & set(outside):
+                return ("radius-set", "query_radius(%s/2, sqrt(%d)/2) returned %s; clearly inside %s, clearly outside %s"
+                        % (Q, m, sorted(ans), inside, outside))
+            continue
         want = sorted(i for i in range(n) if d2(pts[i], Q) <= m)
         if sorted(ans) != want:
             return ("radius-set", "query_radius(%s/2, sqrt(%d)/2) returned %s, the points within the radius are %s"
@@ -229,6 +287,29 @@ def oracle(case, obs):
             return ("ambient-queue-changed", "other PriorityQueue objects alive during the run were modified: they held %s, "
                     "afterwards %s" % (want, obs.get("ambient_after")))
     return None
+
+
+def rounding_ties(case, obs):
+    """Number of kNN answers of a float-class case that are optimal only up to rounding (exact order differs)."""
+    if obs.get("status") != "ok":
+        return 0
+    c = 0
+    for (Q, k), ans in zip(case["knn"], obs["knn"]):
+        if ans and ans[0] == "error":
+            continue
+        ds = [d2(case["pts"][i], Q) for i in ans if 0 <= i < len(case["pts"])]
+        if ds != sorted(d2(p, Q) for p in case["pts"])[:k]:
+            c += 1
+    return c
+
+
+def classify(case, kind):
+    """Failure class: the clause that failed + the input class / configuration it failed on."""
+    pts = [tuple(p) for p in case["pts"]]
+    return "/".join([kind, "strategy=" + case["strategy"], "leaf=%d" % case["mls"], "dim=%d" % case["dim"],
+                     "duplicates" if len(set(pts)) < len(pts) else "distinct",
+                     "ambient-queues" if case.get("ambient") else "no-ambient",
+                     "bigfloat" if case.get("float_only") else "small-int"])
 
 
 def run_one(case, timeout=3.0):
@@ -355,11 +436,16 @@ def run(ctx):
                 "fast / random with seeded numpy RNG; per case 3 kNN queries (k in 1..n+2, query on / near / far from the data) "
                 "and 2 radius queries (radius 0, a data point exactly on the sphere, random); in 35% of the cases one or two other "
                 "mouette PriorityQueue objects with pending items (negative / positive priorities) are alive during build and queries "
-                "and must be left unchanged. Non-trivial = the build splits "
+                "and must be left unchanged. Plus a rounding class (200 quick / 4000 thorough cases, oracle only): "
+                "coordinates 2^20..2^40 + (-3..3), queries far away, so that distinct true distances collide in binary64. Non-trivial = the build splits "
                 "at least once (n > leaf size); distinct = by canonical JSON of the case")
     ctx.assumptions += [
         "coordinates are small integers (queries half-integers), everything is doubled on the Coq side; squared distances "
         "are compared instead of their binary64 square roots (order-isomorphic on these inputs)",
+        "LIMIT: the theorems are about exact arithmetic. Under binary64 two points whose true distances differ by less than rounding "
+        "resolution (e.g. (2^30,0) and (2^30,1) seen from the origin: both at float distance 2^30) are ties for the implementation: "
+        "their order, which of them is among the k nearest, and whether they fall within a radius equal to that float are unspecified. "
+        "The rounding class measures this; beyond that resolution the exact-integer oracle requires the answers to be optimal",
         "the pivot returned by _find_pivot (numpy median / RNG) is an input of the model (oracle), recorded from the run",
         "max_leaf_size >= 1 and dimension >= 1 as in the property's quantifier",
     ]
@@ -376,6 +462,7 @@ def run(ctx):
     cases += [json.loads(json.dumps(w)) for w in WITNESSES]
     maxn = 24 if quick else 40
     cases += [gen_case(ctx.rng, maxn) for _ in range(n_cases)]
+    cases += [gen_float_case(ctx.rng) for _ in range(200 if quick else 4000)]
     if not quick:
         ex = exhaustive_cases()
         ctx.notes.append("thorough tier also enumerates %d cases exhaustively (all 1-D point sequences over {0,1,2} of length <= 5, "
@@ -391,11 +478,16 @@ def run(ctx):
             obs[j] = o
 
     fails = []
+    n_skipped = 0
+    n_ties = 0
     for idx, (c, o) in enumerate(zip(cases, obs)):
         n = len(c["pts"])
         if o["status"] == "skipped":
             ctx.count("status=skipped (shard had already shown 3 build time-outs)")
+            n_skipped += 1
             continue
+        if c.get("float_only"):
+            n_ties += rounding_ties(c, o)
         ctx.count("dim=%d" % c["dim"])
         ctx.count("style=" + c.get("style", "?"))
         ctx.count("strategy=" + c["strategy"])
@@ -416,11 +508,30 @@ def run(ctx):
         m = oracle(c, o)
         if m:
             fails.append((idx, m))
-    ctx.obligation("oracle: every observed tree / answer satisfies the C11 sentence (brute force)", "oracle-on-implementation",
-                   True, "%d failing cases" % len(fails))
+    # every failing case is classified; a failure counts against the obligation unless its class is a listed known finding
+    classes = {}
+    for idx, (kind, msg) in fails:
+        classes.setdefault(classify(cases[idx], kind), []).append((idx, kind, msg))
+    unknown = sorted(k for k in classes if not ctx.known(k))
+    n_float_run = sum(1 for c, o in zip(cases, obs) if c.get("float_only") and o["status"] != "skipped")
+    ctx.obligation("oracle: every observed tree / answer satisfies the C11 sentence (brute force, exact integers)",
+                   "oracle-on-implementation", not any(not cases[i].get("float_only") for k in unknown for i, _, _ in classes[k]),
+                   "%d failing cases in %d classes, %d classes not listed as known: %s" % (len(fails), len(classes), len(unknown), unknown[:6]))
+    ctx.obligation("oracle on the rounding class (huge near-equal coordinates; exact integers, orders checked up to 2^-%d relative): "
+                   "%d cases, %d answers optimal only up to binary64 rounding" % (TOL_BITS, n_float_run, n_ties),
+                   "oracle-on-implementation", not any(cases[i].get("float_only") for k in unknown for i, _, _ in classes[k]),
+                   "these cases are outside the exact-arithmetic model and are not sent to Coq")
+    ctx.extra["rounding_class"] = {"cases": n_float_run, "answers_optimal_only_up_to_rounding": n_ties, "tolerance_bits": TOL_BITS}
 
     bad = []
-    enc_idx = [i for i, o in enumerate(obs) if encodable(o)]
+    enc_idx = [i for i, o in enumerate(obs) if encodable(o) and not cases[i].get("float_only")]
+    failing_idx = {i for i, _ in fails}
+    dropped = [i for i, o in enumerate(obs) if not cases[i].get("float_only") and o["status"] != "skipped"
+               and i not in failing_idx and not encodable(o)]
+    ctx.obligation("harness: every generated case was run and every passing small-integer case was sent to Coq "
+                   "(skipped after 3 time-outs in a shard: %d, unencodable without an oracle failure: %d)" % (n_skipped, len(dropped)),
+                   "harness", n_skipped == 0 and not dropped and ctx.evaluations > 0,
+                   "" if n_skipped == 0 and not dropped else "the exploration is incomplete: the property is not shown on the skipped cases")
     if b["model_ok"]:
         terms = [case_term(cases[i], obs[i]) for i in enc_idx]
         badl = ctx.run_cases("kd", HEADER, terms, "check_case", case_type="case", shard=250)
@@ -431,18 +542,24 @@ def run(ctx):
     reported = set()
     import time
     shrink_deadline = time.time() + 45.0      # total time allowed for shrinking, over all failure classes
-    for idx, (key, msg) in fails:
-        if key in reported:
-            continue
-        reported.add(key)
+    kinds_done = set()
+    # unknown classes first (one violation per failing clause, the other classes of the same clause are listed in it)
+    for key in unknown + sorted(k for k in classes if ctx.known(k)):
+        idx, kind, msg = classes[key][0]
         if ctx.known(key):
             ctx.report_known(key, ctx.known(key)["what"])
             continue
-        small = shrink(cases[idx], key, budget=max(0.0, min(20.0, shrink_deadline - time.time())))
+        if kind in kinds_done:
+            continue
+        kinds_done.add(kind)
+        small = shrink(cases[idx], kind, budget=max(0.0, min(20.0, shrink_deadline - time.time())))
         o2 = run_one(small)
         m2 = oracle(small, o2)
-        ctx.violation("kd-tree: " + (m2[1] if m2 else msg), {"case": small, "observed": o2, "class": key}, key=key)
-    if bad and not fails:
+        key2 = classify(small, m2[0]) if m2 else key
+        ctx.violation("kd-tree: " + (m2[1] if m2 else msg),
+                      {"case": small, "observed": o2, "class": key2,
+                       "all_failing_classes_of_this_clause": [k for k in unknown if k.split("/")[0] == kind][:40]}, key=key2)
+    if bad and not [i for i in bad if i in failing_idx]:
         ctx.notes.append("model/implementation disagree on cases %s but the oracle accepts the implementation's answers" % bad[:5])
         for i in bad[:3]:
             ctx.log("disagreement on case", i, json.dumps(cases[i]), json.dumps(obs[i]))
